@@ -151,6 +151,23 @@ pub fn project(name: &str) -> Project {
                 ],
             }
         }
+        "dotdep" => {
+            // a dependency whose name has several dots, in the foo.txtpp.ext shape, included by another source
+            decoys(&mut plain, &[""]);
+            let idx = |x: &str| format!("{x}\nTXTPP#include data.v2.json\nTXTPP#include conf.d/net.v1.yaml\nend\n");
+            let data = |x: &str| format!("{{ \"v\": \"{x}\" }}\n");
+            let net = |x: &str| format!("net: {x}\n-TXTPP#temp net.v1.tmp\n-{x}\n");
+            Project {
+                name: name.into(),
+                sources: vec![
+                    src("index.txt.txtpp", "index.txt", &[], &[1, 2], &idx("index"), &idx("INDEX2")),
+                    src("data.v2.txtpp.json", "data.v2.json", &[], &[], &data("one"), &data("two")),
+                    src("conf.d/net.v1.yaml.txtpp", "conf.d/net.v1.yaml", &["conf.d/net.v1.tmp"], &[], &net("n1"), &net("n2")),
+                ],
+                plain,
+                sels: vec![sel(&["."], true, &[0, 1, 2]), sel(&["index.txt"], false, &[0]), sel(&["data.v2.json", "conf.d/net.v1.yaml"], false, &[1, 2])],
+            }
+        }
         "aligned" => {
             // the output is exactly 8192 bytes (one reader/writer buffer), written in small chunks
             let body = |c: char| (0..128).map(|_| format!("{}\n", c.to_string().repeat(63))).collect::<String>();
@@ -596,6 +613,16 @@ pub fn check_run(
                     out.push(f("clean-touched-other-file", format!("clean {how} {path}")));
                 }
             }
+            // whatever was there before (outputs or temp targets may already be absent): after a successful clean
+            // nothing generated by the named sources remains
+            if o.ok {
+                for g in &allowed {
+                    if o.after.contains_key(g) {
+                        bump("clean_must_remove_checks");
+                        out.push(f("clean-left-generated-file", format!("clean succeeded but {g}, generated by a named source, is still there")));
+                    }
+                }
+            }
             // built state for the same inputs -> exactly the pre-build tree
             for tn_b in [true, false] {
                 let fr = fc.get(b, p, &ver, tn_b, sel_i);
@@ -770,9 +797,9 @@ pub fn run_property(prop: &str, tier: &str) -> i32 {
     let rep = Report::new(prop, tier);
     let thorough = rep.thorough();
     let plans: Vec<(&str, usize, bool)> = if thorough {
-        vec![("solo", 4, prop == "C08"), ("chain", 3, false), ("errsrc", 3, false), ("nested", 3, false), ("empty", 4, false), ("aligned", 2, false), ("big", 2, false)]
+        vec![("solo", 4, prop == "C08"), ("chain", 3, false), ("errsrc", 3, false), ("nested", 3, false), ("empty", 4, false), ("aligned", 2, false), ("big", 2, false), ("dotdep", 3, false)]
     } else {
-        vec![("solo", 2, prop == "C08"), ("chain", 2, false), ("errsrc", 2, false), ("nested", 2, false), ("empty", 3, false), ("aligned", 2, false)]
+        vec![("solo", 2, prop == "C08"), ("chain", 2, false), ("errsrc", 2, false), ("nested", 2, false), ("empty", 3, false), ("aligned", 2, false), ("dotdep", 2, false)]
     };
     rep.set("bounds", json!(plans.iter().map(|(n, d, pf)| format!("{n}: depth {d}{}", if *pf { " + every byte-prefix" } else { "" })).collect::<Vec<_>>()));
     rep.set("operations", json!("RUN(mode in build/needed/verify/clean, input selection, trailing-newline on/off), EDIT(source i), TAMPER(generated path, 11 kinds)"));
@@ -799,6 +826,7 @@ pub fn run_property(prop: &str, tier: &str) -> i32 {
     }
     if prop == "C10" && !rep.over_cap() {
         crate::strace10::run_into(&rep);
+        crate::strace10::nonutf8_names(&rep);
     }
     rep.finish()
 }
